@@ -613,7 +613,21 @@ async fn run_case_async(case: Case) {
                 let mut btx = rch::base::Sender::<Value>::new(raw_tx);
                 let mut brx = rch::base::Receiver::<Value>::new(raw_rx);
                 let v = travelling.take().unwrap();
-                let (sres, rres) = tokio::join!(no_hang(btx.send(v)), no_hang(brx.recv()));
+                // a send that fails hands the value back: nothing will arrive, do not wait for it
+                // (the receiver's deserializer thread would keep the paused clock from advancing)
+                let (sres, rres) = {
+                    let send_fut = no_hang(btx.send(v));
+                    let recv_fut = no_hang(brx.recv());
+                    tokio::pin!(send_fut);
+                    tokio::pin!(recv_fut);
+                    tokio::select! {
+                        biased;
+                        s = &mut send_fut => {
+                            if matches!(s, Some(Ok(()))) { let r = recv_fut.await; (s, Some(r)) } else { (s, None) }
+                        }
+                        r = &mut recv_fut => { let s = send_fut.await; (s, Some(r)) }
+                    }
+                };
                 match sres {
                     Some(Ok(())) => tr("valuesend hop=0 res=ok".into()),
                     Some(Err(e)) => {
@@ -623,17 +637,23 @@ async fn run_case_async(case: Case) {
                     None => tr("valuesend hop=0 res=hang".into()),
                 }
                 match rres {
-                    Some(Ok(Some(v))) => {
+                    None => (),
+                    Some(Some(Ok(Some(v)))) => {
                         tr("valuerecv hop=0 res=ok".into());
                         v.flatten(&mut arrived);
                         delivered = true;
                     }
-                    Some(Ok(None)) => tr("valuerecv hop=0 res=eos".into()),
-                    Some(Err(e)) => tr(format!("valuerecv hop=0 res=err-{}", short(&e))),
-                    None => tr("valuerecv hop=0 res=hang".into()),
+                    Some(Some(Ok(None))) => tr("valuerecv hop=0 res=eos".into()),
+                    Some(Some(Err(e))) => tr(format!("valuerecv hop=0 res=err-{}", short(&e))),
+                    Some(None) => tr("valuerecv hop=0 res=hang".into()),
                 }
-                // keep the carrier channel alive while the halves are exercised
-                std::mem::forget((btx, brx));
+                // keep the carrier channel alive while the halves are exercised; if nothing arrived it is dropped,
+                // which also ends the receiver's deserializer thread (a live blocking task stops the paused clock)
+                if delivered {
+                    std::mem::forget((btx, brx));
+                } else {
+                    drop((btx, brx));
+                }
             }
         }
     }
@@ -693,7 +713,20 @@ async fn run_case_async(case: Case) {
                         let failed = !matches!(r, Some(Ok(())));
                         sres = Some(r);
                         if failed && first_err.is_none() {
-                            // the value was not sent: nothing will arrive
+                            // the value was not sent: nothing will arrive.  Let the receiver see the aborted
+                            // stream first: its deserializer thread must end, a live blocking task keeps the
+                            // paused clock from advancing
+                            {
+                                let rf = rx.recv();
+                                tokio::pin!(rf);
+                                for _ in 0..400 {
+                                    let ready = std::future::poll_fn(|cx| std::task::Poll::Ready(rf.as_mut().poll(cx).is_ready())).await;
+                                    if ready {
+                                        break;
+                                    }
+                                    tokio::task::yield_now().await;
+                                }
+                            }
                             rres = None;
                             break;
                         }
@@ -744,6 +777,11 @@ async fn run_case_async(case: Case) {
                 }
                 stop = true;
             }
+        }
+        if stop {
+            // an aborted streamed item leaves the receiver's deserializer thread waiting for the next item,
+            // and a live blocking task keeps the paused clock from advancing: the receiver is not needed any more
+            receivers.truncate(i);
         }
         match rres {
             None if stop => (),
